@@ -44,8 +44,7 @@ UNPROVEN = ['fields and segment phasors with exactly one element are outside the
             'Rotate/Flip.multiply raise AttributeError (open known finding of C08)',
             'the plane-type admission test of Plane.multiply (C08) and tilt bookkeeping (C04) are not part of this model',
             'the constructor\'s mask normalisation (mask != 0, mask=None -> amplitude) is applied by the harness before the model sees the plane (Plane.__init__ is pinned)']
-ASSUMPTIONS = ['3-D masks have at least two layers: a 3-D mask with a single layer makes Plane.multiply raise ValueError on the unchanged tree (reported with a candidate fix; single-layer cases are parked on branch wC-single-layer)',
-               'accumulation targets of Wavefront.insert are float64 arrays (an int64 target raises NumPy\'s casting error, float32 rounds)',
+ASSUMPTIONS = ['accumulation targets of Wavefront.insert are float64 arrays (an int64 target raises NumPy\'s casting error, float32 rounds)',
                'fewer than about 990 mutually overlapping fields (Python recursion limit in field._disjoint)',
                'every segment bounding box and every intermediate field that is multiplied by a further plane has more than one element (a propagation window of a single output sample is generated: the views of one-element fields are defined since the repo fix of _merge_shape)',
                'attribute arrays have the shape of the mask (otherwise NumPy raises or broadcasts; malformed input)']
@@ -126,8 +125,9 @@ def _plane(rng, mode, shape, kind, force=None):
                     if not _ok_layer(M): continue
                     layers = [M]
                 elif t == '3d':
-                    k = int(rng.integers(2, 6))
-                    layers = partition(rng, M, k, interleave=bool(rng.integers(0, 2)))
+                    k = int(rng.integers(1, 6))          # k = 1: a 3-D mask with a single layer
+                    layers = [M] if k == 1 else partition(rng, M, k, interleave=bool(rng.integers(0, 2)))
+                    if k == 1 and not _ok_layer(M): continue
                     if layers is None: continue
                 else:
                     k = int(rng.integers(2, 4))
